@@ -6,42 +6,51 @@ import (
 	"go/types"
 	"strings"
 
-	"golang.org/x/tools/go/cfg"
 	"golang.org/x/tools/go/packages"
 
 	"osmcheck/core"
 )
 
+// C12: annotation is deterministic and orders updates by index, time, version.
+//
+// Files: c12.go (registration, rules), c12_less.go (finite-domain evaluation of comparators; sortAdapter and
+// parseLessChain, which c11.go also calls), c12_sorted.go ("sorted before it escapes" on the CFG and through
+// helpers), c12_key.go (derivation of the (Index, Version) key), c12_variants.go (sensitivity and robustness suites).
+//
+// Anchors (exported API or interface methods only): osm.Updates.SortByIndex, osm.Updates.SortByTimestamp,
+// osm.Update{Index,Timestamp,Version}, core.Compute, core.Parent.SetChild, shared.(*Child).Update,
+// shared.Child.Version, sort.Sort/Stable/Slice/SliceStable. No unexported name is used to find anything.
+
 func init() {
 	register(&core.Property{
 		ID:    "C12",
 		Title: "Annotation is deterministic and orders updates by index, time, version",
-		Explanation: "Structural necessary conditions: (N1) every range over a map in the annotate tree whose body appends to a slice that outlives the loop is followed, on every path to the return of that slice, by a sort of it (of each element for slice-of-slices) through Updates.SortByIndex; " +
-			"(N2) the comparator SortByIndex hands to sort.Sort is a lexicographic chain Index < Timestamp < Version, strict, oriented i-before-j, which is a total order on the per-parent key (Index, Version) that Compute is shown to emit at most once; Len/Swap are the standard ones; SortByTimestamp's comparator is a strict order on Timestamp; " +
-			"(N3) Compute returns its results only after sorting every per-parent list. " +
-			"NOT decided: byte identity of whole results, determinism of user datasources, order effects through Parent.SetChild (each location is written once per child id).",
-		Assumptions: []string{"go/types, go/cfg (x/tools v0.29.0)", "sort.Sort is not stable, hence ties must be impossible on the emitted key", "time.Time.Before/Equal semantics"},
-		LevelText:   "Structural necessary conditions for determinism and for the (index, time, version) order: map-iteration results are sorted before they escape, and the sort comparator is a total order on the key the computation emits. Decided for every map range in annotate/… and for the comparator actually passed to sort.Sort.",
-		LevelNote:   "Trusts the type checker, go/cfg dominance, and the documented behaviour of sort.Sort and time.Time comparisons. Does not decide byte-identity of results.",
-		Technique:   "AST/type-resolved comparator-shape analysis (lexicographic chain extraction) + CFG dominance of sort-before-escape for map-range loops",
+		Explanation: "Structural necessary conditions, decided on what the code does, not on how it is written (if/switch, early returns, nesting, local copies or pointers, renamed locals, helper functions, sort.Slice instead of an adapter type, loop forms, the file a function lives in). " +
+			"(N1) For every range over a map in the annotate tree: each list declared outside the loop that the body grows by append (directly, or in a function it passes the list to) is, on every path from the end of the loop to a return of that list, completely sorted into its canonical order, and not assigned again before the return. Canonical order of osm.Update lists: Index, then Timestamp, then Version (Updates.SortByIndex, or any sort whose comparator is shown to be that order); of integer/string slices: any strict total order. 'Completely sorted' is a sort call on the list, a loop over all its elements that sorts the current element on every iteration and cannot be left early, or a function that does one of these to its parameter before each of its exits; an unexported function may return the list unsorted if every caller sorts it. " +
+			"(N2) The comparator that SortByIndex hands to sort.Sort/Stable/Slice/SliceStable is interpreted on every combination of relations (<, equal, >; for times also 'same instant, different representation', where == and Equal disagree) between the Index, Timestamp, Version (and any other field it reads) of two elements; the resulting truth table must be the strict lexicographic order Index, Timestamp (as an instant), Version and must never be true in both directions; SortByTimestamp's table must be the strict order on the instant; Len/Swap of an adapter are executed symbolically; the sort is applied to the method's receiver. The key (Index, Version) is shown to occur once per parent: every osm.Update put into a list comes from Child.Update() (which copies the Version of the child it is called on), its Index is set from the location's position field (the field also handed to Parent.SetChild) before any use, and the two innermost loops around each use are one that varies the child version and one that varies the location. " +
+			"(N3) Every return of Compute that returns lists returns them after a complete sort into the index order (in Compute, or in the function whose result it returns). " +
+			"NOT decided: byte identity of whole results, determinism of user datasources, order effects through Parent.SetChild (each location is written once per child id), NaN in float fields (no comparator reads one), stores into outer slices that are not appends, one update variable appended twice in one statement, function literals (reported as undecided).",
+		Assumptions: []string{"go/types, go/cfg (x/tools v0.29.0)", "sort.Sort is not stable, hence ties must be impossible on the emitted key", "time.Time: Before/After/Equal/Compare/Sub compare instants, == and != compare the representation", "the histories handed to Compute hold each child version once"},
+		LevelText:   "Structural necessary conditions for determinism and for the (index, time, version) order: map-iteration results are sorted before they escape, and the sort comparator is, by exhaustive evaluation over the relations between the compared fields, the required total order on the key the computation emits. Decided for every map range in annotate/… and for the comparator actually passed to the sort.",
+		LevelNote:   "Trusts the type checker, go/cfg dominance, and the documented behaviour of package sort and of time.Time comparisons. Does not decide byte-identity of results.",
+		Technique:   "finite-domain evaluation of the comparators (abstract interpretation of Less over field relations; truth table compared with the required lexicographic order) + CFG dominance of sort-before-escape for map-range loops, followed through helper functions and call sites + role-based dataflow (origins of values, enclosing loops along call chains) for the key derivation",
 		DesignRef:   "DESIGN.md §5 C12",
 		Rules: []*core.Rule{
-			{ID: "N1", Floor: 1, Doc: "map-order hygiene: slices appended under a map range are sorted before they escape", Run: c12N1},
-			{ID: "N2", Floor: 6, Doc: "sort comparators are strict lexicographic chains; SortByIndex compares Index, Timestamp, Version (a key)", Run: c12N2},
-			{ID: "N3", Floor: 1, Doc: "Compute sorts every per-parent update list before returning", Run: c12N3},
+			// Floors count things a refactoring cannot change. N1: the one map range of Compute. N2: SortByIndex (sorts its
+			// receiver, Len, Swap, Less, one step per field of the required order = 7) + SortByTimestamp (5) + key (Update()
+			// copies Version, one Update() source) = 14; the obligation per append/store of an update is not counted
+			// (preallocating the list would change it). N3: the one value return of Compute.
+			{ID: "N1", Floor: 1, Doc: "map-order hygiene: lists grown under a map range are completely sorted into their canonical order (updates: Index, Timestamp, Version) before they escape", Run: c12N1},
+			{ID: "N2", Floor: 14, Doc: "sort comparators, evaluated exhaustively over field relations, are the strict orders Index/Timestamp/Version and Timestamp; (Index, Version) is a key of the emitted lists", Run: c12N2},
+			{ID: "N3", Floor: 1, Doc: "every value return of Compute is dominated by a complete sort of every per-parent update list into the index order", Run: c12N3},
 		},
-		Mutants: []core.Mutant{
-			{Name: "drop-version-tiebreak", File: "update.go", Find: "\tif !us[i].Timestamp.Equal(us[j].Timestamp) {\n\t\treturn us[i].Timestamp.Before(us[j].Timestamp)\n\t}\n\n\treturn us[i].Version < us[j].Version", Replace: "\treturn us[i].Timestamp.Before(us[j].Timestamp)", ExpectRule: "N2", ExpectConstruct: "updatesSortIndex"},
-			{Name: "less-descending-version", File: "update.go", Find: "return us[i].Version < us[j].Version", Replace: "return us[j].Version < us[i].Version", ExpectRule: "N2", ExpectConstruct: "updatesSortIndex"},
-			{Name: "less-nonstrict", File: "update.go", Find: "return us[i].Version < us[j].Version", Replace: "return us[i].Version <= us[j].Version", ExpectRule: "N2", ExpectConstruct: "updatesSortIndex"},
-			{Name: "compute-no-sort", File: "annotate/internal/core/compute.go", Find: "\tfor _, r := range results {\n\t\tr.SortByIndex()\n\t}\n", Replace: "", ExpectRule: "N1", ExpectConstruct: "Compute"},
-			{Name: "compute-sort-by-ts", File: "annotate/internal/core/compute.go", Find: "r.SortByIndex()", Replace: "r.SortByTimestamp()", ExpectRule: "N1", ExpectConstruct: "Compute"},
-			{Name: "compute-sort-conditional", File: "annotate/internal/core/compute.go", Find: "\t\tr.SortByIndex()\n", Replace: "\t\tif len(r) > 12 {\n\t\t\tr.SortByIndex()\n\t\t}\n", ExpectRule: "N1", ExpectConstruct: "Compute"},
-			{Name: "update-index-not-set", File: "annotate/internal/core/compute.go", Find: "u.Index = cl.Index", Replace: "u.Index = cl.Parent", ExpectRule: "N2", ExpectConstruct: "key"},
-			{Name: "swap-broken", File: "update.go", Find: "func (us updatesSortIndex) Swap(i, j int) { us[i], us[j] = us[j], us[i] }", Replace: "func (us updatesSortIndex) Swap(i, j int) { us[i], us[j] = us[j], us[j] }", ExpectRule: "N2", ExpectConstruct: "Swap"},
-		},
+		Mutants: c12Mutants,
+		Benign:  c12Benign,
 	})
 }
+
+// c12IndexOrder is the required order of the updates of one parent.
+var c12IndexOrder = []string{"Index", "Timestamp", "Version"}
 
 func annotateTree(p *core.Program) []*packages.Package {
 	var out []*packages.Package
@@ -53,171 +62,82 @@ func annotateTree(p *core.Program) []*packages.Package {
 	return out
 }
 
-// sortAllOf recognises, in function body, constructs that sort slice variable S (or every element of it)
-// with Updates.SortByIndex; it returns the CFG-relevant "done" position of each.
-type sortSite struct {
-	pos     token.Pos // position after which the sort has happened
-	elem    bool      // sorts every element of S
-	method  string
-	rangeSt *ast.RangeStmt
+// chainStep is one comparison of a lexicographic comparator (see parseLessChain in c12_less.go).
+type chainStep struct {
+	field  string
+	strict bool // false only on the last step, when Less is true for elements equal on every field
+	asc    bool // the i-side element goes first when its field is smaller
+	final  bool
+	tieOK  bool // ties of this field (for times: equal instants) fall through to the following fields
+	pos    token.Pos
 }
 
-func findSortsOf(info *types.Info, body *ast.BlockStmt, s types.Object) []sortSite {
-	var out []sortSite
-	ast.Inspect(body, func(n ast.Node) bool {
-		switch x := n.(type) {
-		case *ast.RangeStmt:
-			if objOf(info, x.X) != s || x.Value == nil {
-				return true
-			}
-			v := objOf(info, x.Value)
-			// body must be exactly one unconditional statement: v.SortByX()
-			if len(x.Body.List) != 1 {
-				return true
-			}
-			es, ok := x.Body.List[0].(*ast.ExprStmt)
-			if !ok {
-				return true
-			}
-			call, ok := es.X.(*ast.CallExpr)
-			if !ok {
-				return true
-			}
-			sel, ok := call.Fun.(*ast.SelectorExpr)
-			if !ok || objOf(info, sel.X) != v {
-				return true
-			}
-			if fn := callee(info, call); fn != nil && strings.HasPrefix(fn.Name(), "Sort") {
-				out = append(out, sortSite{pos: x.End(), elem: true, method: funcName(fn), rangeSt: x})
-			}
-		case *ast.ExprStmt:
-			call, ok := x.X.(*ast.CallExpr)
-			if !ok {
-				return true
-			}
-			if sel, ok := call.Fun.(*ast.SelectorExpr); ok && objOf(info, sel.X) == s {
-				if fn := callee(info, call); fn != nil && strings.HasPrefix(fn.Name(), "Sort") {
-					out = append(out, sortSite{pos: x.End(), method: funcName(fn)})
-				}
-			}
-		}
-		return true
-	})
-	return out
-}
-
-// sortDominatesReturn: the completion of the sort dominates ret.
-func sortDominates(g *cfg.CFG, dom map[*cfg.Block]map[*cfg.Block]bool, ss sortSite, target token.Pos) bool {
-	tb, _ := blockOf(g, target)
-	if tb == nil {
-		return false
-	}
-	if ss.rangeSt != nil {
-		for _, b := range g.Blocks {
-			if b.Kind == cfg.KindRangeDone && b.Stmt == ss.rangeSt {
-				return b == tb || dom[tb][b]
-			}
-		}
-		return false
-	}
-	return posDominates(g, dom, ss.pos-1, target)
-}
+// ---------------------------------------------------------------------------
+// N1
+// ---------------------------------------------------------------------------
 
 func c12N1(r *core.R) {
+	s := c12NewSorter(r.P)
+	if s.indexSort == nil {
+		r.Anchor("osm.Updates.SortByIndex")
+		return
+	}
 	nmaps := 0
 	for _, pk := range annotateTree(r.P) {
 		info := pk.TypesInfo
 		for _, fi := range allFuncs(pk) {
-			var g *cfg.CFG
-			var dom map[*cfg.Block]map[*cfg.Block]bool
+			fi := fi
+			par := parentsOf(r.P, fi)
 			ast.Inspect(fi.Decl.Body, func(n ast.Node) bool {
 				rs, ok := n.(*ast.RangeStmt)
 				if !ok {
 					return true
 				}
-				if _, isMap := info.TypeOf(rs.X).Underlying().(*types.Map); !isMap {
+				if t := info.TypeOf(rs.X); t == nil {
+					return true
+				} else if _, isMap := t.Underlying().(*types.Map); !isMap {
 					return true
 				}
 				nmaps++
 				c := "maprange@" + pk.Types.Name() + "." + fi.Name()
-				// slices rooted outside the loop that the body appends to
-				type app struct {
-					root types.Object
-					elem bool
-					pos  token.Pos
-				}
-				var apps []app
-				ast.Inspect(rs.Body, func(m ast.Node) bool {
-					as, ok := m.(*ast.AssignStmt)
-					if !ok {
-						return true
-					}
-					for i, rhs := range as.Rhs {
-						call, ok := rhs.(*ast.CallExpr)
-						if !ok || builtinName(info, call) != "append" || i >= len(as.Lhs) {
-							continue
-						}
-						root := rootObj(info, as.Lhs[i])
-						if root == nil || (root.Pos() >= rs.Body.Pos() && root.Pos() <= rs.Body.End()) {
-							continue // loop-local accumulator
-						}
-						_, isIdx := ast.Unparen(as.Lhs[i]).(*ast.IndexExpr)
-						apps = append(apps, app{root: root, elem: isIdx, pos: as.Pos()})
-					}
-					return true
-				})
-				if len(apps) == 0 {
-					r.OKTrivial(c, rs.Pos(), "range over map %s appends to nothing that outlives the loop", src(r.P.Fset, rs.X))
+				f := s.fn(fi.Obj)
+				if f == nil {
+					r.Unknown(c, rs.Pos(), "function could not be analysed")
 					return true
 				}
-				if g == nil {
-					g = newCFG(info, fi.Decl.Body)
-					dom = dominators(g)
+				taints := s.taints(f, rs.Body, 3)
+				if len(taints) == 0 {
+					r.OKTrivial(c, rs.Pos(), "range over map %s grows nothing that outlives the loop", src(r.P.Fset, rs.X))
+					return true
 				}
-				for _, a := range apps {
-					cc := c + " " + a.root.Name()
-					sorts := findSortsOf(info, fi.Decl.Body, a.root)
-					// every return mentioning the slice after the loop must be dominated by an accepted sort
-					nret := 0
-					allOK := true
-					why := ""
-					ast.Inspect(fi.Decl.Body, func(m ast.Node) bool {
-						ret, ok := m.(*ast.ReturnStmt)
-						if !ok || ret.Pos() < rs.End() || !usesObj(info, ret, a.root) {
-							return true
+				if enclosing(par, rs, func(x ast.Node) bool { _, isLit := x.(*ast.FuncLit); return isLit }) != nil {
+					r.Unknown(c, rs.Pos(), "range over a map inside a function literal grows %s; the rule follows declared functions only", taints[0].root.Name())
+					return true
+				}
+				_, _, done := f.loopBlocks(rs)
+				if done == nil {
+					r.Unknown(c, rs.Pos(), "loop not found in the control-flow graph")
+					return true
+				}
+				for _, t := range taints {
+					// keyed on the type of the list, which survives renaming of locals
+					cc := c + " " + types.TypeString(t.root.Type(), func(p *types.Package) string { return p.Name() })
+					s.notes = nil
+					if (t.elem && !c12HoldsUpdates(t.root.Type())) || (!t.elem && !c12IsUpdates(t.root.Type())) {
+						r.Unknown(cc, t.pos, "%s is grown in hash-map iteration order (`%s`); its type %s has no canonical order the rule can verify (understood: lists of osm.Update ordered by Index, Timestamp, Version; slices of integers or strings under any strict total order)", t.root.Name(), t.via, t.root.Type())
+						continue
+					}
+					st, why := s.escapeSorted(f, t.root, t.elem, c12Done{block: done, idx: -1, desc: "end of the map range"}, 3)
+					switch st {
+					case c12OK:
+						r.OK(cc, t.pos, "%s is grown under range over %s (`%s`); %s", t.root.Name(), src(r.P.Fset, rs.X), t.via, why)
+					case c12Bad:
+						if len(s.notes) > 0 {
+							why += " (" + strings.Join(s.notes, "; ") + ")"
 						}
-						nret++
-						found := false
-						for _, ss := range sorts {
-							if ss.rangeSt != nil && ss.rangeSt.Pos() < rs.End() {
-								continue
-							}
-							if ss.elem != a.elem {
-								continue
-							}
-							if ss.method != "Updates.SortByIndex" {
-								why = "sorted with " + ss.method + ", whose comparator is not the (Index, Timestamp, Version) total order"
-								continue
-							}
-							if sortDominates(g, dom, ss, ret.Pos()) {
-								found = true
-							}
-						}
-						if !found {
-							allOK = false
-						}
-						return true
-					})
-					switch {
-					case nret == 0:
-						r.Unknown(cc, a.pos, "slice %s is appended to under map iteration but its escape point was not found", a.root.Name())
-					case !allOK:
-						if why == "" {
-							why = "no unconditional Updates.SortByIndex of " + map[bool]string{true: "every element of ", false: ""}[a.elem] + a.root.Name() + " dominates the return"
-						}
-						r.Bad(cc, a.pos, "appended to in hash-map iteration order and returned unsorted: %s", why)
+						r.Bad(cc, t.pos, "%s is grown in hash-map iteration order (`%s`) and returned unsorted: %s", t.root.Name(), t.via, why)
 					default:
-						r.OK(cc, a.pos, "appended to under range over %s; every return of %s (%d) is dominated by a complete SortByIndex pass", src(r.P.Fset, rs.X), a.root.Name(), nret)
+						r.Unknown(cc, t.pos, "%s is grown in hash-map iteration order (`%s`): %s", t.root.Name(), t.via, why)
 					}
 				}
 				return true
@@ -227,230 +147,63 @@ func c12N1(r *core.R) {
 	r.Stat("map_range_loops", nmaps)
 }
 
+// ---------------------------------------------------------------------------
+// N3
+// ---------------------------------------------------------------------------
+
 func c12N3(r *core.R) {
+	s := c12NewSorter(r.P)
 	pk := r.P.Pkg("annotate/internal/core")
 	fi := findFunc(pk, "Compute")
-	if fi == nil {
-		r.Anchor("core.Compute")
+	if fi == nil || s.indexSort == nil {
+		r.Anchor("core.Compute / osm.Updates.SortByIndex")
 		return
 	}
-	info := pk.TypesInfo
-	// result variable: the []osm.Updates returned on the success path
-	g := newCFG(info, fi.Decl.Body)
-	dom := dominators(g)
+	f := s.fn(fi.Obj)
+	res := fi.Obj.Type().(*types.Signature).Results()
+	k := -1
+	for i := 0; i < res.Len(); i++ {
+		if c12HoldsUpdates(res.At(i).Type()) {
+			k = i
+		}
+	}
+	if f == nil || k < 0 {
+		r.Anchor("result of core.Compute holding osm.Updates")
+		return
+	}
 	n := 0
-	ast.Inspect(fi.Decl.Body, func(m ast.Node) bool {
+	inspectNoLit(fi.Decl.Body, func(m ast.Node) bool {
 		ret, ok := m.(*ast.ReturnStmt)
-		if !ok || len(ret.Results) != 2 {
+		if !ok {
 			return true
 		}
-		if id, ok := ret.Results[1].(*ast.Ident); !ok || id.Name != "nil" {
-			return true
-		}
-		res := objOf(info, ret.Results[0])
-		if res == nil {
-			r.Unknown("return@Compute", ret.Pos(), "success return does not return a variable: %s", src(r.P.Fset, ret))
-			return true
-		}
-		n++
-		ok2 := false
-		for _, ss := range findSortsOf(info, fi.Decl.Body, res) {
-			if ss.elem && ss.method == "Updates.SortByIndex" && sortDominates(g, dom, ss, ret.Pos()) {
-				ok2 = true
+		s.notes = nil
+		st, why := s.retSorted(f, ret, k, true, nil, 3)
+		switch st {
+		case c12Triv:
+		case c12OK:
+			n++
+			r.OK("return@Compute", ret.Pos(), "`%s`: %s", src(r.P.Fset, ret), why)
+		case c12Bad:
+			n++
+			if len(s.notes) > 0 {
+				why += " (" + strings.Join(s.notes, "; ") + ")"
 			}
-		}
-		if ok2 {
-			r.OK("return@Compute "+res.Name(), ret.Pos(), "success return of %s is dominated by `for _, r := range %s { r.SortByIndex() }`", res.Name(), res.Name())
-		} else {
-			r.Bad("return@Compute "+res.Name(), ret.Pos(), "per-parent update lists are returned without each being sorted by SortByIndex")
+			r.Bad("return@Compute", ret.Pos(), "per-parent update lists are returned without each being sorted by SortByIndex: %s", why)
+		default:
+			n++
+			r.Unknown("return@Compute", ret.Pos(), "%s", why)
 		}
 		return true
 	})
 	if n == 0 {
-		r.Anchor("success return of core.Compute")
+		r.Anchor("return of per-parent update lists in core.Compute")
 	}
 }
 
-// chainStep is one comparison of a lexicographic comparator.
-type chainStep struct {
-	field  string
-	strict bool // strict less
-	asc    bool // i-side on the left of <
-	final  bool
-	tieOK  bool // the guard that falls through is exactly inequality of the same field
-	pos    token.Pos
-}
-
-// parseLessChain extracts the lexicographic chain of a Less(i, j) method over a slice receiver.
-func parseLessChain(info *types.Info, fd *ast.FuncDecl) ([]chainStep, string) {
-	if fd.Recv == nil || len(fd.Recv.List) != 1 || len(fd.Recv.List[0].Names) != 1 {
-		return nil, "receiver not named"
-	}
-	recv := info.Defs[fd.Recv.List[0].Names[0]]
-	var pi, pj types.Object
-	var params []types.Object
-	for _, f := range fd.Type.Params.List {
-		for _, nm := range f.Names {
-			params = append(params, info.Defs[nm])
-		}
-	}
-	if len(params) != 2 {
-		return nil, "Less must have two parameters"
-	}
-	pi, pj = params[0], params[1]
-	// side returns "i"/"j" and the field name for recv[i].F
-	side := func(e ast.Expr) (string, string) {
-		f := fieldOf(info, e)
-		if f == nil {
-			return "", ""
-		}
-		ix, ok := ast.Unparen(ast.Unparen(e).(*ast.SelectorExpr).X).(*ast.IndexExpr)
-		if !ok || objOf(info, ix.X) != recv {
-			return "", ""
-		}
-		switch objOf(info, ix.Index) {
-		case pi:
-			return "i", f.Name()
-		case pj:
-			return "j", f.Name()
-		}
-		return "", ""
-	}
-	// less parses `A < B` or `A.Before(B)`
-	less := func(e ast.Expr) (field string, strict, asc, ok bool) {
-		e = ast.Unparen(e)
-		var a, b ast.Expr
-		switch x := e.(type) {
-		case *ast.BinaryExpr:
-			switch x.Op {
-			case token.LSS:
-				a, b, strict = x.X, x.Y, true
-			case token.GTR:
-				a, b, strict = x.Y, x.X, true
-			case token.LEQ:
-				a, b, strict = x.X, x.Y, false
-			case token.GEQ:
-				a, b, strict = x.Y, x.X, false
-			default:
-				return
-			}
-		case *ast.CallExpr:
-			fn := callee(info, x)
-			sel, isSel := x.Fun.(*ast.SelectorExpr)
-			if !isSel || len(x.Args) != 1 {
-				return
-			}
-			switch {
-			case isMethod(fn, "time.Time", "Before"):
-				a, b, strict = sel.X, x.Args[0], true
-			case isMethod(fn, "time.Time", "After"):
-				a, b, strict = x.Args[0], sel.X, true
-			default:
-				return
-			}
-		default:
-			return
-		}
-		sa, fa := side(a)
-		sb, fb := side(b)
-		if fa == "" || fa != fb || sa == sb || sa == "" || sb == "" {
-			return
-		}
-		return fa, strict, sa == "i", true
-	}
-	// neq parses `A != B` or `!A.Equal(B)`
-	neq := func(e ast.Expr) (string, bool) {
-		e = ast.Unparen(e)
-		switch x := e.(type) {
-		case *ast.BinaryExpr:
-			if x.Op != token.NEQ {
-				return "", false
-			}
-			sa, fa := side(x.X)
-			sb, fb := side(x.Y)
-			if fa == "" || fa != fb || sa == sb {
-				return "", false
-			}
-			// != on time.Time compares representation, not instants
-			if namedPath(info.TypeOf(x.X)) == "time.Time" {
-				return "", false
-			}
-			return fa, true
-		case *ast.UnaryExpr:
-			if x.Op != token.NOT {
-				return "", false
-			}
-			call, ok := ast.Unparen(x.X).(*ast.CallExpr)
-			if !ok || len(call.Args) != 1 {
-				return "", false
-			}
-			sel, ok := call.Fun.(*ast.SelectorExpr)
-			if !ok || !isMethod(callee(info, call), "time.Time", "Equal") {
-				return "", false
-			}
-			sa, fa := side(sel.X)
-			sb, fb := side(call.Args[0])
-			if fa == "" || fa != fb || sa == sb {
-				return "", false
-			}
-			return fa, true
-		}
-		return "", false
-	}
-	var chain []chainStep
-	for k, st := range fd.Body.List {
-		switch s := st.(type) {
-		case *ast.IfStmt:
-			if s.Init != nil || s.Else != nil || len(s.Body.List) != 1 {
-				return nil, "unrecognised if-form in comparator"
-			}
-			ret, ok := s.Body.List[0].(*ast.ReturnStmt)
-			if !ok || len(ret.Results) != 1 {
-				return nil, "if body is not a single return"
-			}
-			gf, gok := neq(s.Cond)
-			f, strict, asc, ok := less(ret.Results[0])
-			if !ok {
-				return nil, "return in if is not a field comparison"
-			}
-			chain = append(chain, chainStep{field: f, strict: strict, asc: asc, tieOK: gok && gf == f, pos: s.Pos()})
-		case *ast.ReturnStmt:
-			if k != len(fd.Body.List)-1 || len(s.Results) != 1 {
-				return nil, "return in the middle of comparator"
-			}
-			f, strict, asc, ok := less(s.Results[0])
-			if !ok {
-				return nil, "final return is not a field comparison"
-			}
-			chain = append(chain, chainStep{field: f, strict: strict, asc: asc, final: true, tieOK: true, pos: s.Pos()})
-		default:
-			return nil, "unrecognised statement in comparator"
-		}
-	}
-	if len(chain) == 0 || !chain[len(chain)-1].final {
-		return nil, "comparator does not end in a comparison"
-	}
-	return chain, ""
-}
-
-// sortAdapter resolves, for a method `func (us T) SortByX() { sort.Sort(U(us)) }`, the adapter type U.
-func sortAdapter(pk *packages.Package, fi *FuncInfo) *types.Named {
-	var res *types.Named
-	ast.Inspect(fi.Decl.Body, func(n ast.Node) bool {
-		call, ok := n.(*ast.CallExpr)
-		if !ok {
-			return true
-		}
-		fn := callee(pk.TypesInfo, call)
-		if (isPkgFunc(fn, "sort", "Sort") || isPkgFunc(fn, "sort", "Stable")) && len(call.Args) == 1 {
-			if nt, ok := pk.TypesInfo.TypeOf(call.Args[0]).(*types.Named); ok {
-				res = nt
-			}
-		}
-		return true
-	})
-	return res
-}
+// ---------------------------------------------------------------------------
+// N2
+// ---------------------------------------------------------------------------
 
 func c12N2(r *core.R) {
 	pk := r.P.Pkg("")
@@ -460,7 +213,7 @@ func c12N2(r *core.R) {
 		want   []string
 		key    bool
 	}{
-		{"Updates.SortByIndex", []string{"Index", "Timestamp", "Version"}, true},
+		{"Updates.SortByIndex", c12IndexOrder, true},
 		{"Updates.SortByTimestamp", []string{"Timestamp"}, false},
 	} {
 		fi := findFunc(pk, spec.method)
@@ -468,191 +221,337 @@ func c12N2(r *core.R) {
 			r.Anchor(spec.method)
 			continue
 		}
-		ad := sortAdapter(pk, fi)
-		if ad == nil {
-			r.Anchor("sort.Sort(adapter) in " + spec.method)
-			continue
-		}
-		c := "comparator@" + ad.Obj().Name()
-		lessFi := findFunc(pk, ad.Obj().Name()+".Less")
-		swapFi := findFunc(pk, ad.Obj().Name()+".Swap")
-		lenFi := findFunc(pk, ad.Obj().Name()+".Len")
-		if lessFi == nil || swapFi == nil || lenFi == nil {
-			r.Anchor(ad.Obj().Name() + " Len/Less/Swap")
-			continue
-		}
-		chain, perr := parseLessChain(info, lessFi.Decl)
-		if perr != "" {
-			r.Unknown(c+".Less", lessFi.Decl.Pos(), "comparator shape not recognised (%s); accepted: `if a.F != b.F {return a.F < b.F}`... `return a.G < b.G` with time fields through Equal/Before", perr)
-		} else {
-			var fields []string
-			okShape := true
-			for _, st := range chain {
-				fields = append(fields, st.field)
-				cc := c + ".Less step " + st.field
-				switch {
-				case !st.strict:
-					r.Bad(cc, st.pos, "comparison of %s is not strict (<=): Less(i,i) would be true, sort.Sort requires a strict order", st.field)
-					okShape = false
-				case !st.asc:
-					r.Bad(cc, st.pos, "comparison of %s is descending (j-side < i-side)", st.field)
-					okShape = false
-				case !st.tieOK:
-					r.Bad(cc, st.pos, "the guard of the %s step is not exactly inequality of %s on both sides, so ties do not fall through to the next field", st.field, st.field)
-					okShape = false
-				default:
-					r.OK(cc, st.pos, "strict ascending comparison of %s, ties fall through", st.field)
-				}
-			}
-			if strings.Join(fields, ",") == strings.Join(spec.want, ",") {
-				if okShape {
-					r.OK(c+".Less", lessFi.Decl.Pos(), "lexicographic chain %v", fields)
-				}
+		sorts := c12FindSort(pk, fi)
+		if len(sorts) != 1 {
+			if len(sorts) == 0 {
+				r.Anchor("call of sort.Sort/Stable/Slice/SliceStable in " + spec.method)
 			} else {
-				msg := "compares " + strings.Join(fields, ", ") + "; required " + strings.Join(spec.want, ", then ")
-				if spec.key {
-					msg += ": (Index, Version) is the key of an update within one parent, so without it equal-timestamp versions of one child are ordered by the unstable sort and by hash-map iteration order"
-				}
-				r.Bad(c+".Less", lessFi.Decl.Pos(), "%s", msg)
+				r.Unknown("sort@"+spec.method, fi.Decl.Pos(), "%d sort calls are reached from %s; the rule expects one", len(sorts), spec.method)
 			}
+			continue
 		}
-		// Swap: us[i], us[j] = us[j], us[i] ; Len: return len(us)
-		okSwap := false
-		if len(swapFi.Decl.Body.List) == 1 {
-			if as, ok := swapFi.Decl.Body.List[0].(*ast.AssignStmt); ok && len(as.Lhs) == 2 && len(as.Rhs) == 2 &&
-				sameExpr(info, as.Lhs[0], as.Rhs[1]) && sameExpr(info, as.Lhs[1], as.Rhs[0]) && !sameExpr(info, as.Lhs[0], as.Lhs[1]) {
-				okSwap = true
-			}
-		}
-		r.Check(okSwap, c+".Swap", swapFi.Decl.Pos(), "exchanges elements i and j", "Swap does not exchange elements i and j: sorting would lose or duplicate updates")
-		okLen := false
-		if len(lenFi.Decl.Body.List) == 1 {
-			if ret, ok := lenFi.Decl.Body.List[0].(*ast.ReturnStmt); ok && len(ret.Results) == 1 {
-				if a := lenCallArg(info, ret.Results[0]); a != nil && lenFi.Decl.Recv != nil && objOf(info, a) == info.Defs[lenFi.Decl.Recv.List[0].Names[0]] {
-					okLen = true
-				}
-			}
-		}
-		r.Check(okLen, c+".Len", lenFi.Decl.Pos(), "returns len(receiver)", "Len does not return len(receiver)")
-	}
-	c12Key(r)
-}
+		so := sorts[0]
+		// the method sorts its receiver (not a copy)
+		c12CheckSortsReceiver(r, pk, fi, so, spec.method)
 
-// c12Key checks the derivation of the per-parent key (Index, Version): every osm.Update appended in
-// Compute comes from child[k].Update() (Version: c.Version) with Index set from the location, inside
-// loops over k and over the locations, so (Index, Version) occurs at most once per parent.
-func c12Key(r *core.R) {
-	sh := r.P.Pkg("annotate/shared")
-	upd := findFunc(sh, "(*Child).Update")
-	if upd == nil {
-		r.Anchor("shared.(*Child).Update")
-		return
-	}
-	okVer := false
-	ast.Inspect(upd.Decl.Body, func(n ast.Node) bool {
-		cl, ok := n.(*ast.CompositeLit)
-		if !ok || namedPath(sh.TypesInfo.TypeOf(cl)) != core.ModulePath+".Update" {
-			return true
-		}
-		for _, e := range cl.Elts {
-			if kv, ok := e.(*ast.KeyValueExpr); ok {
-				if id, ok := kv.Key.(*ast.Ident); ok && id.Name == "Version" {
-					if f := fieldOf(sh.TypesInfo, kv.Value); f != nil && f.Name() == "Version" {
-						okVer = true
-					}
-				}
-			}
-		}
-		return true
-	})
-	r.Check(okVer, "key@Child.Update Version", upd.Decl.Pos(), "Update() copies the child's Version", "Child.Update does not carry the child's Version: the (Index, Version) key of an update is lost")
-
-	pk := r.P.Pkg("annotate/internal/core")
-	fi := findFunc(pk, "Compute")
-	if fi == nil {
-		r.Anchor("core.Compute")
-		return
-	}
-	info := pk.TypesInfo
-	par := parentsOf(r.P, fi)
-	n := 0
-	ast.Inspect(fi.Decl.Body, func(m ast.Node) bool {
-		as, ok := m.(*ast.AssignStmt)
-		if !ok || len(as.Rhs) != 1 {
-			return true
-		}
-		call, ok := as.Rhs[0].(*ast.CallExpr)
-		if !ok || builtinName(info, call) != "append" || call.Ellipsis.IsValid() || len(call.Args) != 2 {
-			return true
-		}
-		if namedPath(info.TypeOf(call.Args[1])) != core.ModulePath+".Update" {
-			return true
-		}
-		n++
-		c := "key@Compute append " + src(r.P.Fset, call.Args[1])
-		u := objOf(info, call.Args[1])
-		blk, _ := par[as].(*ast.BlockStmt)
-		if u == nil || blk == nil {
-			r.Unknown(c, as.Pos(), "appended update is not a local variable")
-			return true
-		}
-		// within the same block: u := X[k].Update(); u.Index = cl.Index
-		var fromUpdate, idxFromLoc bool
-		var kObj, clObj types.Object
-		for _, s := range blk.List {
-			a2, ok := s.(*ast.AssignStmt)
-			if !ok || len(a2.Lhs) != 1 || len(a2.Rhs) != 1 {
+		var cmp *c12Cmp
+		var why, c string
+		if so.adapter != nil {
+			ad := so.adapter.Obj().Name()
+			c = "comparator@" + spec.method // keyed on the exported method, not on the adapter type that implements it today
+			lessFi := findFunc(pk, ad+".Less")
+			swapFi := findFunc(pk, ad+".Swap")
+			lenFi := findFunc(pk, ad+".Len")
+			if lessFi == nil || swapFi == nil || lenFi == nil || lessFi.Decl.Body == nil || swapFi.Decl.Body == nil || lenFi.Decl.Body == nil {
+				r.Anchor(ad + " Len/Less/Swap")
 				continue
 			}
-			if objOf(info, a2.Lhs[0]) == u {
-				if c2, ok := a2.Rhs[0].(*ast.CallExpr); ok {
-					if fn := callee(info, c2); isMethod(fn, core.ModulePath+"/annotate/shared.Child", "Update") {
-						if sel, ok := c2.Fun.(*ast.SelectorExpr); ok {
-							if ix, ok := ast.Unparen(sel.X).(*ast.IndexExpr); ok {
-								kObj = objOf(info, ix.Index)
-								fromUpdate = kObj != nil
-							}
-						}
-					}
-				}
-			}
-			if f := fieldOf(info, a2.Lhs[0]); f != nil && f.Name() == "Index" && rootObj(info, a2.Lhs[0]) == u {
-				if sf := fieldOf(info, a2.Rhs[0]); sf != nil && sf.Name() == "Index" && namedPath(info.TypeOf(ast.Unparen(a2.Rhs[0]).(*ast.SelectorExpr).X)) == core.ModulePath+"/annotate/internal/core.childLoc" {
-					clObj = rootObj(info, a2.Rhs[0])
-					idxFromLoc = clObj != nil
-				}
-			}
+			c12CheckSwap(r, pk, swapFi, c+".Swap")
+			c12CheckLen(r, pk, lenFi, c+".Len")
+			cmp, why = c12MethodCmp(pk, lessFi.Decl)
+		} else if so.lit == nil && (so.fn == "Sort" || so.fn == "Stable") {
+			r.Unknown("comparator@"+spec.method+".Less", so.call.Pos(), "the operand `%s` of sort.%s has no concrete named adapter type the rule can resolve", src(r.P.Fset, so.sorted), so.fn)
+			continue
+		} else {
+			c = "comparator@" + spec.method
+			r.OKTrivial(c+".Swap", so.call.Pos(), "sort.%s exchanges the elements itself", so.fn)
+			r.OKTrivial(c+".Len", so.call.Pos(), "sort.%s takes the length of the slice itself", so.fn)
+			cmp, why = c12LitCmp(pk, so, spec.method+" less")
 		}
-		// k and cl must be loop variables of distinct enclosing loops
-		loopVar := func(o types.Object) bool {
-			found := false
-			for p := par[as]; p != nil; p = par[p] {
-				switch l := p.(type) {
-				case *ast.RangeStmt:
-					if (l.Key != nil && objOf(info, l.Key) == o) || (l.Value != nil && objOf(info, l.Value) == o) {
-						found = true
-					}
-				case *ast.ForStmt:
-					if l.Init != nil && usesObj(info, l.Init, o) {
-						found = true
-					}
-				}
+		c += ".Less"
+		if why != "" {
+			r.Unknown(c, fi.Decl.Pos(), "comparator not understood: %s", why)
+			continue
+		}
+		var seed []c12Var
+		okSeed := true
+		for _, f := range spec.want {
+			fv := c12FieldOfType(cmp.elem, f)
+			if fv == nil {
+				r.Anchor("field " + f + " of the sorted element type")
+				okSeed = false
+				continue
 			}
-			return found
+			seed = append(seed, c12Var{path: f, isTime: c12IsTime(fv.Type())})
+		}
+		if !okSeed {
+			continue
+		}
+		tbl, why := c12BuildTable(cmp, seed)
+		if why != "" {
+			r.Unknown(c, cmp.pos, "the comparator could not be evaluated over the relations between the fields of two elements: %s", why)
+			for _, f := range spec.want {
+				r.Unknown(c+" step "+f, cmp.pos, "undecided: the comparator could not be evaluated (see %s)", c)
+			}
+			continue
+		}
+		r.Stat("comparator_table_rows", len(tbl.rows))
+		v := c12CheckLex(tbl, spec.want)
+		allOK := true
+		for k, f := range spec.want {
+			cc := c + " step " + f
+			if v.stepBad[k] != "" {
+				allOK = false
+				msg := "the comparator does not order by " + strings.Join(spec.want[:k+1], ", then ") + ": " + v.stepBad[k]
+				if spec.key && f == "Version" {
+					msg += "; (Index, Version) is the key of an update within one parent, so without the version tie-break equal-time versions of one child are ordered by the unstable sort and by hash-map iteration order"
+				}
+				if tbl.vars[tbl.varIndex(f)].isTime {
+					msg += "; note that == and != on time.Time compare the representation (zone pointer, monotonic reading), not the instant"
+				}
+				r.Bad(cc, cmp.pos, "%s", msg)
+			} else {
+				prev := "always"
+				if k > 0 {
+					prev = "whenever " + strings.Join(spec.want[:k], ", ") + " tie"
+				}
+				r.OK(cc, cmp.pos, "%s: %s.i < %s.j gives true and > gives false, whatever the other fields (all %d abstract inputs)", prev, f, f, len(tbl.rows))
+			}
 		}
 		switch {
-		case !fromUpdate:
-			r.Bad(c, as.Pos(), "appended update is not produced by child[k].Update()")
-		case !idxFromLoc:
-			r.Bad(c, as.Pos(), "the update's Index is not set from the child location's Index: (Index, Version) is no longer the position/version key the comparator relies on")
-		case !loopVar(kObj) || !loopVar(clObj):
-			r.Bad(c, as.Pos(), "k or the location is not a loop variable of an enclosing loop: an (Index, Version) pair could be emitted twice")
+		case v.tieBad != "":
+			r.Bad(c, cmp.pos, "the comparator is not a strict order: %s; sort requires Less(i,j) and Less(j,i) not both true", v.tieBad)
+		case !allOK:
+			// reported per step
+			chain, cerr := c12InferChain(tbl, cmp.pos)
+			var fields []string
+			for _, st := range chain {
+				f := st.field
+				if !st.asc {
+					f += " (descending)"
+				}
+				if !st.tieOK {
+					f += " (equal instants in different representations do not fall through to the next field)"
+				}
+				fields = append(fields, f)
+			}
+			if cerr != "" {
+				fields = []string{cerr}
+			}
+			r.Bad(c, cmp.pos, "the comparator implements the order: %s; required: %s", strings.Join(fields, ", then "), strings.Join(spec.want, ", then "))
 		default:
-			r.OK(c, as.Pos(), "u := child[%s].Update(); u.Index = %s.Index inside loops over %s and %s: one update per (location, child version)", kObj.Name(), clObj.Name(), kObj.Name(), clObj.Name())
+			r.OK(c, cmp.pos, "truth table over the relations of %s (%d rows) equals the strict lexicographic order %s", strings.Join(c12SortedFields(tbl), ", "), len(tbl.rows), strings.Join(spec.want, ", "))
 		}
-		return true
-	})
-	if n == 0 {
-		r.Anchor("append of osm.Update in core.Compute")
 	}
+	_ = info
+	s := c12NewSorter(r.P)
+	c12KeyRule(r, s)
+}
+
+func c12FieldOfType(t types.Type, name string) *types.Var {
+	if t == nil {
+		return nil
+	}
+	if pt, ok := t.Underlying().(*types.Pointer); ok {
+		t = pt.Elem()
+	}
+	st, ok := t.Underlying().(*types.Struct)
+	if !ok {
+		return nil
+	}
+	for i := 0; i < st.NumFields(); i++ {
+		if st.Field(i).Name() == name {
+			return st.Field(i)
+		}
+	}
+	return nil
+}
+
+// c12CheckSortsReceiver: the slice handed to the sort is the receiver of the SortByX method (through conversions,
+// aliases, and the parameters of helpers on the way).
+func c12CheckSortsReceiver(r *core.R, pk *packages.Package, fi *FuncInfo, so *c12Sort, method string) {
+	info := pk.TypesInfo
+	c := "sort@" + method
+	var recv types.Object
+	if fi.Decl.Recv != nil && len(fi.Decl.Recv.List) == 1 && len(fi.Decl.Recv.List[0].Names) == 1 {
+		recv = info.Defs[fi.Decl.Recv.List[0].Names[0]]
+	}
+	if recv == nil {
+		r.Unknown(c, fi.Decl.Pos(), "receiver of %s is not named", method)
+		return
+	}
+	// walk from the sort call up to the method
+	host := so.host
+	e := so.sorted
+	for depth := 0; depth < 4; depth++ {
+		if ue, ok := ast.Unparen(e).(*ast.UnaryExpr); ok && ue.Op == token.AND {
+			e = ue.X
+		}
+		v := c12Resolve(info, host.Decl.Body, e)
+		if v == nil {
+			r.Unknown(c, so.call.Pos(), "the operand `%s` of sort.%s is not a variable", src(r.P.Fset, so.sorted), so.fn)
+			return
+		}
+		if host.Obj == fi.Obj {
+			if v == recv {
+				r.OK(c, so.call.Pos(), "sort.%s is applied to the receiver of %s", so.fn, method)
+			} else {
+				r.Bad(c, so.call.Pos(), "sort.%s is applied to `%s`, not to the receiver of %s: the caller's list stays unsorted", so.fn, v.Name(), method)
+			}
+			return
+		}
+		// v must be a parameter of the helper; find the call of the helper
+		var up *FuncInfo
+		var arg ast.Expr
+		for _, g := range allFuncs(pk) {
+			g := g
+			ast.Inspect(g.Decl.Body, func(n ast.Node) bool {
+				if call, ok := n.(*ast.CallExpr); ok && callee(info, call) == host.Obj && up == nil {
+					if a := argForParam(info, host, call, v); a != nil {
+						up, arg = g, a
+					}
+				}
+				return true
+			})
+		}
+		if up == nil {
+			r.Unknown(c, so.call.Pos(), "`%s` in helper %s is not a parameter bound at a call site", v.Name(), host.Name())
+			return
+		}
+		host, e = up, arg
+	}
+	r.Unknown(c, so.call.Pos(), "helper chain from %s to the sort call is too deep", method)
+}
+
+// c12CheckLen: Len returns the length of the receiver.
+func c12CheckLen(r *core.R, pk *packages.Package, lenFi *FuncInfo, c string) {
+	st, why := c12LenVerdict(pk, lenFi)
+	switch st {
+	case c12OK:
+		r.OK(c, lenFi.Decl.Pos(), "%s", why)
+	case c12Bad:
+		r.Bad(c, lenFi.Decl.Pos(), "%s", why)
+	default:
+		r.Unknown(c, lenFi.Decl.Pos(), "%s", why)
+	}
+}
+
+func c12LenVerdict(pk *packages.Package, lenFi *FuncInfo) (int, string) {
+	cmp, why := c12MethodCmp(pk, lenFi.Decl)
+	if why != "" {
+		return c12Unk, "Len not understood: " + why
+	}
+	ru := &c12Run{c: cmp, rel: map[string]c12Rel{}, same: -1}
+	vals, why := ru.fn(cmp.ftype, cmp.body, c12Env{}, 3)
+	switch {
+	case why != "":
+		return c12Unk, "Len not understood: " + why
+	case len(vals) == 1 && vals[0].k == c12KLen:
+		return c12OK, "returns len(receiver)"
+	case len(vals) == 1 && vals[0].k == c12KUnknown:
+		return c12Unk, "Len not understood: " + vals[0].why
+	}
+	return c12Bad, "Len does not return len(receiver): sort would ignore or overrun part of the list"
+}
+
+// c12CheckSwap executes Swap symbolically on the two cells s[i], s[j] (values A, B) and requires (B, A) at the end.
+// Understood: parallel and sequential assignments between the cells, locals and pointers to the cells.
+func c12CheckSwap(r *core.R, pk *packages.Package, swapFi *FuncInfo, c string) {
+	st, why := c12SwapVerdict(pk, swapFi)
+	switch st {
+	case c12OK:
+		r.OK(c, swapFi.Decl.Pos(), "%s", why)
+	case c12Bad:
+		r.Bad(c, swapFi.Decl.Pos(), "%s", why)
+	default:
+		r.Unknown(c, swapFi.Decl.Pos(), "%s", why)
+	}
+}
+
+func c12SwapVerdict(pk *packages.Package, swapFi *FuncInfo) (int, string) {
+	info := pk.TypesInfo
+	fd := swapFi.Decl
+	var recv types.Object
+	if fd.Recv != nil && len(fd.Recv.List) == 1 && len(fd.Recv.List[0].Names) == 1 {
+		recv = info.Defs[fd.Recv.List[0].Names[0]]
+	}
+	var params []types.Object
+	for _, f := range fd.Type.Params.List {
+		for _, nm := range f.Names {
+			params = append(params, info.Defs[nm])
+		}
+	}
+	if recv == nil || len(params) != 2 {
+		return c12Unk, "Swap without a named receiver and two named parameters"
+	}
+	cells := [2]string{"A", "B"}
+	locals := map[types.Object]string{}
+	// cellOf: expression denotes cell k
+	var cellOf func(e ast.Expr) int
+	cellOf = func(e ast.Expr) int {
+		e = ast.Unparen(e)
+		switch x := e.(type) {
+		case *ast.IndexExpr:
+			if objOf(info, x.X) == recv {
+				switch objOf(info, x.Index) {
+				case params[0]:
+					return 0
+				case params[1]:
+					return 1
+				}
+			}
+		case *ast.StarExpr:
+			if o := objOf(info, x.X); o != nil {
+				switch locals[o] {
+				case "&0":
+					return 0
+				case "&1":
+					return 1
+				}
+			}
+		}
+		return -1
+	}
+	rvalue := func(e ast.Expr) string {
+		e = ast.Unparen(e)
+		if k := cellOf(e); k >= 0 {
+			return cells[k]
+		}
+		if ue, ok := e.(*ast.UnaryExpr); ok && ue.Op == token.AND {
+			if k := cellOf(ue.X); k >= 0 {
+				return "&" + string(rune('0'+k))
+			}
+		}
+		if o := objOf(info, e); o != nil {
+			if v, ok := locals[o]; ok {
+				return v
+			}
+		}
+		return "?"
+	}
+	unknown := ""
+	for _, st := range fd.Body.List {
+		as, ok := st.(*ast.AssignStmt)
+		if !ok || (as.Tok != token.ASSIGN && as.Tok != token.DEFINE) || len(as.Lhs) != len(as.Rhs) {
+			unknown = "statement `" + src(pk.Fset, st) + "`"
+			break
+		}
+		vals := make([]string, len(as.Rhs))
+		for i, e := range as.Rhs {
+			vals[i] = rvalue(e)
+		}
+		for i, l := range as.Lhs {
+			if k := cellOf(l); k >= 0 {
+				cells[k] = vals[i]
+				continue
+			}
+			if id, ok := ast.Unparen(l).(*ast.Ident); ok {
+				if o := objOf(info, id); o != nil && o != recv && o != params[0] && o != params[1] {
+					locals[o] = vals[i]
+					continue
+				}
+			}
+			unknown = "assignment to `" + src(pk.Fset, l) + "`"
+		}
+		if unknown != "" {
+			break
+		}
+	}
+	switch {
+	case unknown != "":
+		return c12Unk, "Swap not understood (" + unknown + "); understood: assignments between s[i], s[j], locals and pointers to the two cells"
+	case cells == [2]string{"B", "A"}:
+		return c12OK, "exchanges elements i and j (symbolic execution: (A,B) -> (B,A))"
+	}
+	return c12Bad, "Swap does not exchange elements i and j (symbolic execution: (A,B) -> (" + cells[0] + "," + cells[1] + ")): sorting would lose or duplicate updates"
 }
